@@ -70,6 +70,7 @@ def toFixed : Sx → Option Fixed
   | .node '(' [.atom "bool"] => some .bool
   | .node '(' (.atom "cenum" :: [.atom k]) => k.toNat?.map Fixed.cenum
   | .node '(' (.atom "rec" :: fs) => (toFixeds fs).map Fixed.record
+  | .node '(' (.atom "podd" :: [.atom h]) => (parseHex h).map Fixed.podd
   | _ => none
 def toFixeds : List Sx → Option (List Fixed)
   | [] => some []
@@ -115,6 +116,7 @@ def toShape : Sx → Option Shape
   | .node '(' [.atom "bool"] => some (.fixed .bool)
   | .node '(' (.atom "cenum" :: [.atom k]) => k.toNat?.map (fun k => .fixed (.cenum k))
   | .node '(' (.atom "rec" :: fs) => (toFixeds fs).map (fun l => .fixed (.record l))
+  | .node '(' (.atom "podd" :: [.atom h]) => (parseHex h).map (fun d => .fixed (.podd d))
   | _ => none
 def toShapes : List Sx → Option (List Shape)
   | [] => some []
@@ -140,6 +142,7 @@ def showFixed : Fixed → String
   | .bool => "(bool)"
   | .cenum k => s!"(cenum {k})"
   | .record fs => "(rec" ++ showFixeds fs ++ ")"
+  | .podd d => "(podd " ++ toHex d ++ ")"
 def showFixeds : List Fixed → String
   | [] => ""
   | f :: fs => " " ++ showFixed f ++ showFixeds fs
